@@ -48,6 +48,8 @@ struct VfRun {
   int poison_mode = 4; uint64_t poison_seed = 1;
   int opi = 0; std::string opname;
   bool ended = false; bool faulted_open = false; bool recovered = false;
+  const StreamRef *preset = nullptr;      // stream built once by the caller (fault enumeration re-executes one scenario many times)
+  std::vector<int> op_callbacks;          // callbacks the primary handle's source served during each op (index = op index)
 
   explicit VfRun(const Plan &p) : plan(p) {}
 
